@@ -21,7 +21,13 @@ def iter_count(o: Outcome) -> Optional[int]:
     return None
 
 
+def _anchors(prog: Program) -> None:
+    prog.func("aioswitcher.bridge:_parse_device_from_datagram")          # AnalysisError "anchor vanished" if renamed
+    prog.cls("aioswitcher.bridge:UdpClientProtocol").require_attrs(["_on_datagram"], "protocol handler attribute")
+
+
 def run(prog: Program, rep: Report, tier: str) -> None:
+    _anchors(prog)
     rep.rule("R17.1", "every endpoint is registered: the transport returned by each create_datagram_endpoint is stored in self._transports under that iteration's port before the next endpoint is created, and the endpoint is bound to that port", 2)
     rep.rule("R17.2", "stop releases every registered endpoint: for each configured port it looks the transport up and closes it unless missing/closing; stop cannot raise (safe before start and when repeated)", 3)
     rep.rule("R17.3", "flag discipline: _is_running is stored only in __init__ (False), start (True, after the whole port loop, never on a raising exit) and stop (False, after the closing loop); is_running returns it", 5)
